@@ -233,7 +233,7 @@ class IcaseComponent(Component):
         alph = params.get("alphabet") or "".join(chr(c) for c in range(32, 127))
         if not params.get("alphabet") and rng.random() < 0.3:
             alph = "".join(chr(c) for c in range(32, 127)) + 3 * "".join(chr(c) for c in range(160, 256))
-        n = params.get("maxlen", 8)
+        n = gen.big(rng, params.get("maxlen", 8), 300, 0.02, lo=params.get("maxlen", 8))
         a = "".join(rng.choice(alph) for _ in range(rng.randint(0, n)))
         r = rng.random()
         if r < 0.3:
@@ -275,7 +275,7 @@ class BagComponent(Component):
 
         def rec():
             ks = rng.sample(keys, rng.randint(0, params.get("maxunits", 4)))
-            return [[k, [list(rng.choice(vals)) for _ in range(rng.randint(0, params.get("maxlen", 4)))]] for k in ks]
+            return [[k, [list(rng.choice(vals)) for _ in range(gen.big(rng, params.get("maxlen", 4), 40, 0.02))]] for k in ks]
         a = rec()
         r = rng.random()
         if r < 0.4:
@@ -311,7 +311,7 @@ class RegqComponent(Component):
 
     def make(self, rng, params):
         owners = list(range(params.get("owners", 4)))
-        n = rng.randint(0, params.get("maxlen", 7))
+        n = gen.big(rng, params.get("maxlen", 7), 60, 0.02)
         reqs = []
         for _ in range(n):
             o = rng.choice(owners)
@@ -381,7 +381,7 @@ class ParseComponent(Component):
     name = "parse"
 
     def make(self, rng, params):
-        instrs = gen.rand_instr_list(rng, rng.randint(0, params.get("maxlines", 8)))
+        instrs = gen.rand_instr_list(rng, gen.big(rng, params.get("maxlines", 8), 200, 0.02))
         corrupt = None
         r = rng.random()
         if instrs and r < params.get("corrupt", 0.3):
@@ -405,14 +405,16 @@ class ParseComponent(Component):
             _, line, ins, msg = i[1]
             _, mline, mins, mk, _mmsg = m[1]
             agree = (line, ins) == (mline, mins)
+            msgtag = ["msg:same-text" if msg == _mmsg else "msg:other-wording"]   # wording is not part of C14
             ok = ins in msg and line in ints_in(msg) and (mk == "none" or mk in ints_in(msg))
             checks["C14"] = [ok, "message names mnemonic, line and operand position"]
         else:
             agree = m == i
+            msgtag = []
         exp = self.expected(case)
         if exp is not None:
             checks["C14x"] = [exp == i, "result equals the written instructions"]
-        return std_report(case, agree, m, i, checks, tags=[f"res:{i[0]}", f"lines:{len(case['lines'])}"],
+        return std_report(case, agree, m, i, checks, tags=[f"res:{i[0]}", f"lines:{len(case['lines'])}"] + msgtag,
                           nontrivial=len(case["lines"]) >= 2, sample={"lines": case["lines"]})
 
     @staticmethod
@@ -446,7 +448,7 @@ class IsaComponent(Component):
         spec = gen.rand_isa(rng, caps)
         mn = [s[0] for s in spec] or ["ADD"]
         prog = []
-        for k in range(rng.randint(0, 8)):
+        for k in range(gen.big(rng, 8, 80, 0.02)):
             name = gen.recase(rng, rng.choice(mn), 0.5) if rng.random() < 0.9 else "FOO"
             srcs = sorted({f"R{rng.randint(0, 4)}" for _ in range(rng.randint(0, 3))})
             prog.append([srcs, f"R{rng.randint(0, 4)}", name, k + 1 + rng.randint(0, 2)])
@@ -462,6 +464,7 @@ class IsaComponent(Component):
         m = jsonable(res["model"][0])
         i = jsonable(impl)
         checks = {}
+        msgtags = []
 
         def cmp(mr, ir):
             if str(ir[0]) == "err" and str(mr[0]) == "err":
@@ -470,9 +473,11 @@ class IsaComponent(Component):
                 mf = mr[1]
                 if mf[0] == "UndefElemError" and len(mf) == 3:       # compile: name + line (line only in the message)
                     ok = fields[:2] == mf[:2]
+                    msgtags.append("msg:same-text" if len(mr) > 2 and mr[2] == msg else "msg:other-wording")
                     checks["C15"] = [mf[1] in msg and mf[2] in ints_in(msg), "message names mnemonic and line"]
                     return ok
                 checks.setdefault("C15", [all(str(f) in msg for f in fields[1:]), "message names the culprit"])
+                msgtags.append("msg:same-text" if len(mr) > 2 and mr[2] == msg else "msg:other-wording")
                 return fields == mf
             if str(mr[0]) == "ok" and str(ir[0]) == "ok" and isinstance(mr[1], list) and all(len(x) == 2 for x in mr[1]):
                 return sorted(mr[1]) == sorted(ir[1])           # a dict: entry order is not part of the property
@@ -480,7 +485,7 @@ class IsaComponent(Component):
         a1 = cmp(m[0], i[0])
         a2 = (m[1] == i[1]) if (str(m[1]) == "none" or str(i[1]) == "none") else cmp(m[1], i[1])
         return std_report(case, a1 and a2, m, i, checks,
-                          tags=[f"isa:{i[0][0]}", f"compile:{i[1][0] if isinstance(i[1], list) else i[1]}"],
+                          tags=[f"isa:{i[0][0]}", f"compile:{i[1][0] if isinstance(i[1], list) else i[1]}"] + msgtags,
                           nontrivial=len(case["spec"]) >= 2)
 
 
@@ -569,6 +574,15 @@ class LoaderComponent(Component):
                 same = i[1][1:4] == m[1][1:4]
             else:
                 same = i[1] == m[1]
+            # the message: the model's text for its own error (model/Errors.v) when the errors coincide, and in
+            # any case the documented template filled with the fields the implementation reported
+            msgs = jsonable(res["msgs"][0]) if "msgs" in res else []
+            mmsgs = jsonable(res["mmsgs"][0]) if "mmsgs" in res else []
+            # The wording of a message is not part of any property: the comparison is made through the projection
+            # "which culprit fields does the message contain" (all of them, for the model: theorem
+            # C11_message_names_culprit); whether the text is also identical is recorded as a tag only.
+            msg_tag = "msg:unmodelled" if not msgs else ("msg:same-text" if msg in msgs and (not same or not mmsgs or msg in mmsgs)
+                                                         else "msg:other-wording")
             agree = {"exact": same, "canon": str(m[0]) == "err", "err": same, **acc}
             # C11: the message contains the culprit fields
             flds = [f for f in i[1][1:] if not isinstance(f, list)]
@@ -579,7 +593,8 @@ class LoaderComponent(Component):
             checks["C20"] = [False, "load_proc_desc modified its argument"]
         nun = len(case["desc"]["units"])
         return std_report(case, agree, m, i[:2], checks,
-                          tags=[f"outcome:{outcome}", f"kind:{case.get('kind', '?')}", f"units:{nun}"],
+                          tags=[f"outcome:{outcome}", f"kind:{case.get('kind', '?')}", f"units:{nun}"] +
+                               ([msg_tag] if str(i[0]) != "ok" else []),
                           nontrivial=nun >= 3, sample={"desc": case["desc"], "outcome": outcome},
                           dig=digest(jsonable(case["desc"])))
 
@@ -589,7 +604,7 @@ class MkprocComponent(Component):
     name = "mkproc"
 
     def make(self, rng, params):
-        n = rng.randint(1, params.get("nmax", 8))
+        n = gen.big(rng, params.get("nmax", 8), 24, 0.02, lo=1)
         names = rng.sample(rng.choice(gen.NAME_POOLS), n) if n <= 10 else [f"u{i}" for i in range(n)]
         es = gen.rand_dag(rng, n)
         if rng.random() < params.get("cyclic", 0.08) and es:
